@@ -399,7 +399,7 @@ func (s *State) evalPrintLogError(node *ast.Builtin) object.Object {
 		if i > 0 {
 			buf.WriteString(" ")
 		}
-		r := s.evalInternal(v)
+		r := object.Value(s.evalInternal(v)) // an outer variable is read, not its reference (a string prints raw).
 		// If what we print/println is an error, return it instead. log can log errors.
 		if r.Type() == object.ERROR && !doLog {
 			return r
@@ -476,6 +476,7 @@ func (s *State) deleteMapEntry(idxE *ast.IndexExpression, index object.Object) o
 		// Nothing to delete, we're done
 		return object.FALSE
 	}
+	obj = object.Value(obj) // the map may be an outer variable reached through a reference.
 	// TODO: handle arrays too? though delete arr[idx] == arr[0:idx]+arr[idx+1:] so... no point
 	if obj.Type() != object.MAP {
 		return s.NewError("delete index on non map: " + id + " " + obj.Type().String())
@@ -516,7 +517,7 @@ func (s *State) evalBuiltin(node *ast.Builtin) object.Object {
 	var val object.Object
 	var rt object.Type
 	if minV > 0 {
-		val = s.evalInternal(node.Parameters[0])
+		val = object.Value(s.evalInternal(node.Parameters[0])) // value of an outer variable, not a live reference.
 		rt = val.Type()
 		if rt == object.ERROR && t != token.LOG && t != token.CATCH { // log can log (and thus catch) errors.
 			return val
@@ -875,7 +876,7 @@ func (s *State) evalIdentifier(node *ast.Identifier) object.Object {
 }
 
 func (s *State) evalIfExpression(ie *ast.IfExpression) object.Object {
-	condition := s.evalInternal(ie.Condition)
+	condition := object.Value(s.evalInternal(ie.Condition))
 	switch condition {
 	case object.TRUE:
 		if log.LogVerbose() {
@@ -1004,12 +1005,12 @@ func (s *State) evalForSpecialForms(fe *ast.ForExpression) (object.Object, bool)
 	}
 	name := ie.Left.Value().Literal()
 	if ie.Right.Value().Type() == token.COLON {
-		start := s.evalInternal(ie.Right.(*ast.InfixExpression).Left)
+		start := object.Value(s.evalInternal(ie.Right.(*ast.InfixExpression).Left))
 		startInt, ok := Int64Value(start)
 		if !ok {
 			return s.NewError("for var = n:m n not an integer: " + start.Inspect()), true
 		}
-		end := s.evalInternal(ie.Right.(*ast.InfixExpression).Right)
+		end := object.Value(s.evalInternal(ie.Right.(*ast.InfixExpression).Right))
 		endInt, ok := Int64Value(end)
 		if !ok {
 			return s.NewError("for var = n:m m not an integer: " + end.Inspect()), true
@@ -1017,7 +1018,7 @@ func (s *State) evalForSpecialForms(fe *ast.ForExpression) (object.Object, bool)
 		return s.evalForInteger(fe, &startInt, endInt, name), true
 	}
 	// Evaluate:
-	v := s.evalInternal(ie.Right)
+	v := object.Value(s.evalInternal(ie.Right))
 	switch v.Type() {
 	case object.REGISTER:
 		return s.evalForInteger(fe, nil, v.(*object.Register).Int64(), name), true
@@ -1075,7 +1076,7 @@ func (s *State) evalForExpression(fe *ast.ForExpression) object.Object {
 	var lastEval object.Object
 	lastEval = object.NULL
 	for {
-		condition := s.evalInternal(fe.Condition)
+		condition := object.Value(s.evalInternal(fe.Condition))
 		switch condition {
 		case object.TRUE:
 			if log.LogVerbose() {
